@@ -64,8 +64,21 @@ func (in *Interp) strLess(x, y Value) *Term {
 }
 
 func (in *Interp) symStrLen(s *SymStr) Value {
-	in.abort("unsupported: len of symbolic string")
-	return nil
+	if s.opaque {
+		in.abort("unsupported: len of opaque text")
+	}
+	var rec func(t *Term) *Term
+	rec = func(t *Term) *Term {
+		if l, ok := litOf(t); ok {
+			return BV(64, uint64(len(l)))
+		}
+		if t.op == OIte {
+			return Ite(t.args[0], rec(t.args[1]), rec(t.args[2]))
+		}
+		in.abort("unsupported: len of symbolic string %s", t)
+		return nil
+	}
+	return rec(s.t)
 }
 
 func (in *Interp) symBytesToString(b Slice) Value {
@@ -90,7 +103,28 @@ func (in *Interp) sprintf(fr *frame, format string, args Slice) Value {
 }
 
 func (in *Interp) strTermEq(a, b *Term) *Term {
+	if a.op == OIte {
+		return Ite(a.args[0], in.strTermEq(a.args[1], b), in.strTermEq(a.args[2], b))
+	}
+	if b.op == OIte {
+		return Ite(b.args[0], in.strTermEq(a, b.args[1]), in.strTermEq(a, b.args[2]))
+	}
 	return Eq(a, b)
+}
+
+// litOf returns the literal text of a lit! term.
+func litOf(t *Term) (string, bool) {
+	if t.op == OApp && len(t.args) == 0 && strings.HasPrefix(t.name, "lit!") {
+		var out []byte
+		hx := t.name[4:]
+		for i := 0; i+1 < len(hx); i += 2 {
+			var b byte
+			fmt.Sscanf(hx[i:i+2], "%02x", &b)
+			out = append(out, b)
+		}
+		return string(out), true
+	}
+	return "", false
 }
 
 func (in *Interp) strTermLess(a, b *Term) *Term {
